@@ -133,9 +133,7 @@ func runCN(id int, c *cnCase, via string) cnLine {
 		if ev == "mm" || ev == "m1" || ev == "m2" || ev == "xbig" {
 			l.Conform = false // the model's chunks are whole messages
 		}
-		if ev == "mp" || ev == "mhp" || ev == "heof" {
-			l.Conform = false // handler panics and handlers running while the peer disconnects are not in the model
-		}
+
 	}
 	base, _ := diamGoroutines()
 	mc := memnet.NewConn()
@@ -291,16 +289,19 @@ func runCN(id int, c *cnCase, via string) cnLine {
 			if ev == "mhp" {
 				bits |= cnAsk
 			}
+			lg.add(cnEvent{Ev: "feed", K: "p"})
 			mc.Feed(cnGoodX(nextID, bits))
 			mc.WaitClosed(3 * time.Second)
 			term = true
 		case "heof": // the peer disconnects while a handler is running
 			nextID++
+			lg.add(cnEvent{Ev: "feed", K: "m"})
 			mc.Feed(cnGoodX(nextID, cnHold))
 			select {
 			case <-holding:
 			case <-time.After(3 * time.Second):
 			}
+			lg.add(cnEvent{Ev: "end", How: "eof"})
 			mc.FeedErr(io.EOF)
 			term = true
 			defer func() {
